@@ -192,21 +192,16 @@ Section Facts.
       destruct (qual_segs s1), (qual_segs s2); cbn [option_map]; auto. destruct q; reflexivity.
   Qed.
 
-  (* C14 even_spec, add_points_even_knees (Tier S) *)
+  (* C14 even_spec, add_points_even_knees (Tier S): no hypothesis at all, the empty knee list included *)
   Theorem even_knees_spec_thm knees ext :
-    knees <> [] ->
     add_points_even_knees xs ys tx ty knees ext = even_spec_knees xs ys tx ty knees ext.
   Proof.
-    intros Hk. unfold add_points_even_knees, even_spec_knees, even_spec.
-    destruct knees as [|k0 ks]; [congruence|]. set (knees := k0 :: ks) in *.
-    change (0 :: knees ++ [length xs - 1]) with (0 :: k0 :: (ks ++ [length xs - 1])).
-    change (consecutive (0 :: k0 :: (ks ++ [length xs - 1]))) with ((0, k0) :: consecutive (knees ++ [length xs - 1])).
-    rewrite consecutive_snoc by (subst knees; congruence).
-    cbn [EvenPoints.qual_segs]. rewrite qual_segs_app. rewrite between_spec.
+    unfold add_points_even_knees, even_spec_knees, even_spec, knee_gaps.
+    rewrite qual_segs_cons, qual_segs_app, between_spec.
     cbn [EvenPoints.qual_segs].
-    destruct (qualifies 0 k0) as [q0|]; auto.
+    destruct (qualifies 0 (hd (length xs - 1) knees)) as [q0|]; auto.
     destruct (qual_segs (consecutive knees)) as [mid|]; auto.
-    destruct (qualifies (last knees 0) (length xs - 1)) as [q1|]; cbn [option_map]; auto.
+    destruct (qualifies (last knees (length xs - 1)) (length xs - 1)) as [q1|]; cbn [option_map]; auto.
     rewrite gaps_loop_spec.
     destruct q0, q1; cbn [app option_map]; reflexivity.
   Qed.
@@ -294,31 +289,43 @@ Section Facts.
       apply Hred. apply nth_In. auto.
   Qed.
 
-  (* C14 even_valid, add_points_even_knees *)
+  Lemma last_In_or {A} (l : list A) d : l = [] /\ last l d = d \/ In (last l d) l.
+  Proof.
+    induction l as [|a [|b l'] IH]; [left; auto|right; left; auto|].
+    right. change (last (a :: b :: l') d) with (last (b :: l') d).
+    destruct IH as [[E _]|IH]; [discriminate|right; exact IH].
+  Qed.
+
+  (* C14 even_valid, add_points_even_knees (the empty knee list included) *)
   Theorem even_knees_valid_thm knees ext res :
-    knees <> [] -> ND knees -> Forall (fun k => k < length xs) knees ->
+    1 <= length xs -> ND knees -> Forall (fun k => k < length xs) knees ->
     add_points_even_knees xs ys tx ty knees ext = Some res -> Forall (fun k => k < length xs) res.
   Proof.
-    intros Hne Hnd Hf. rewrite (even_knees_spec_thm knees ext Hne).
-    assert (H1 : 1 <= length xs).
-    { destruct knees as [|k0 ks]; [congruence|]. inversion Hf; subst. lia. }
+    intros H1 Hnd Hf. rewrite (even_knees_spec_thm knees ext).
     apply even_spec_valid; auto.
-    intros l r Hin.
-    destruct knees as [|k0 ks]; [congruence|]. set (knees := k0 :: ks) in *.
-    change (0 :: knees ++ [length xs - 1]) with (0 :: k0 :: (ks ++ [length xs - 1])) in Hin.
-    change (consecutive (0 :: k0 :: (ks ++ [length xs - 1]))) with ((0, k0) :: consecutive (knees ++ [length xs - 1])) in Hin.
-    rewrite consecutive_snoc in Hin by (subst knees; congruence).
-    rewrite Forall_forall in Hf.
+    intros l r Hin. unfold knee_gaps in Hin. rewrite Forall_forall in Hf.
     destruct Hin as [Hin|Hin].
-    - inversion Hin; subst. split; [lia|]. apply Hf. left; auto.
+    - pose proof (f_equal fst Hin) as E1. pose proof (f_equal snd Hin) as E2. cbn [fst snd] in E1, E2. subst l r.
+      split; [lia|]. destruct knees as [|k0 ks]; cbn [hd]; [lia|]. apply Hf. left; auto.
     - apply in_app_or in Hin. destruct Hin as [Hin|[Hin|[]]].
       + split; [apply (consecutive_ND knees Hnd l r Hin)|]. apply Hf. apply (consecutive_In knees l r Hin).
       + pose proof (f_equal fst Hin) as E1. pose proof (f_equal snd Hin) as E2. cbn [fst snd] in E1, E2. subst l r.
-        assert (Hl : In (last knees 0) knees).
-        { subst knees. clear. revert k0. induction ks as [|a ks IH]; intros k0; [left; auto|].
-          right. change (last (k0 :: a :: ks) 0) with (last (a :: ks) 0). apply IH. }
+        destruct (last_In_or knees (length xs - 1)) as [[_ E]|Hl]; [rewrite E; lia|].
         specialize (Hf _ Hl). lia.
   Qed.
+
+  (* for a non-empty knee list the gaps are the consecutive pairs of 0 :: knees ++ [n-1] *)
+  Lemma knee_gaps_consecutive nl knees : knees <> [] -> knee_gaps nl knees = consecutive (0 :: knees ++ [nl]).
+  Proof.
+    intros Hk. destruct knees as [|k0 ks]; [congruence|]. unfold knee_gaps. cbn [hd].
+    change (0 :: (k0 :: ks) ++ [nl]) with (0 :: k0 :: (ks ++ [nl])).
+    change (consecutive (0 :: k0 :: (ks ++ [nl]))) with ((0, k0) :: consecutive ((k0 :: ks) ++ [nl])).
+    rewrite consecutive_snoc by congruence. f_equal. f_equal. f_equal. f_equal.
+    clear. revert k0. induction ks as [|a ks IH]; intros k0; [reflexivity|].
+    change (last (k0 :: a :: ks) nl) with (last (a :: ks) nl). change (last (k0 :: a :: ks) 0) with (last (a :: ks) 0). apply IH.
+  Qed.
+  Lemma knee_gaps_nil nl : knee_gaps nl [] = [(0, nl); (nl, nl)].
+  Proof. reflexivity. Qed.
 
   (* completion, conditionally on the two float->int facts the arithmetic has to supply *)
   Theorem even_spec_total segs knees ext :
